@@ -312,7 +312,7 @@ Section Main.
     { destruct (propfind_view sb n0 r Hv) as [H1 H2]. rewrite H1. cbn [fst snd]. rewrite H2. split; [reflexivity|exact Hv]. }
     destruct (String.eqb (meth r) "MKCOL"); [apply mkcol_view; exact Hv|].
     destruct (String.eqb (meth r) "COPY" || String.eqb (meth r) "MOVE"); [apply copy_move_view; exact Hv|].
-    split; [reflexivity|exact Hv].
+    destruct (String.eqb (meth r) "PROPPATCH"); [unfold do_proppatch; destruct (pf r)|]; (split; [reflexivity|exact Hv]).
   Qed.
 
   (** Non-interference: two sandboxes that agree on what is mapped at the served
